@@ -78,6 +78,8 @@ def run(ctx):
     s = r.summary
     ctx.log("options %d (of %d registered), %d case x option replays, %d Loads in %d processes, %d robustness Loads, %d failed, %.0fs"
             % (s["options"], s["all_options"], s["ran"], s["loads"], s["procs"], s["robust"], s["failed"], r.wall))
+    if s.get("flaky"):
+        ctx.log("%d Loads disagreed once and agreed when repeated (transient interface-query errors of the OS); not judged" % s["flaky"])
     unobs = s.get("unobservable") or []
     if unobs:
         ctx.log("options whose value does not show in Config (equivalence vacuous): %s" % ", ".join(map(str, unobs)))
